@@ -1,7 +1,7 @@
 ----------------------------- MODULE Trace_Rename -----------------------------
 (* Judges recorded rename steps of the real engine (harness/fn_rename.py) against Rename!Clauses.    *)
 (* A case:                                                                                          *)
-(*   inp = [sch, target, path, req]            (see Rename.tla; trees refer to entities by identity) *)
+(*   inp = [doc, target, path, req]   (doc = index of the document, see Rename.tla for documents)   *)
 (*   out = [fail   : "" or why the document could not be built / read (class of the exception),      *)
 (*          exc    : "" or the class of the exception the rename step raised,                        *)
 (*          names0/1/2 : identity -> current name  (0 before the step, 1 after it, 2 after its undo; *)
@@ -17,38 +17,45 @@
 (* Rename!Toks or the engine did not store the text (SPEC.render), a formula of the family does not  *)
 (* evaluate before the rename (SPEC.error0: "unchanged" would be vacuous).                           *)
 EXTENDS Rename, Json, IOUtils
-Cases == JsonDeserialize(IOEnv.TRACE_FILE)
-NCases == Len(Cases)
-VARIABLES i, bad
+\* the file: [docs |-> <<sch, ...>>, cases |-> <<[inp |-> [doc |-> index into docs, target, path, req], out]>>]
+Data == JsonDeserialize(IOEnv.TRACE_FILE)
+NCases == Len(Data.cases)
+\* dc = what is judged once per document: it is in the family; its formula texts under its own names
+VARIABLES i, bad, dc
+
+DocFacts(S) ==
+  LET ok == SchOk(S) IN
+  [ok |-> ok, texts0 |-> IF ok THEN [id \in ColIds(S) |-> FormulaText(Names0(S), S.cols[id])] ELSE <<>>]
 
 Judge(c) ==
-  LET in == c.inp
+  LET S  == Data.docs[c.inp.doc]
+      in == [sch |-> S, target |-> c.inp.target, path |-> c.inp.path, req |-> c.inp.req]
       o  == c.out
-      S  == in.sch
       fcols == {id \in ColIds(S) : IsFormula(S.cols[id])}
       setupOk  == \A e \in Entities(S) : e \in DOMAIN o.names0 /\ o.names0[e] = Names0(S)[e]
-      renderOk == \A id \in ColIds(S) :
-                    /\ id \in DOMAIN o.texts0
-                    /\ o.texts0[id] = FormulaText(o.names0, S.cols[id])
+      renderOk == \A id \in ColIds(S) : id \in DOMAIN o.texts0 /\ o.texts0[id] = dc[c.inp.doc].texts0[id]
       isErr(tok) == Len(tok) > 0 /\ Char(tok, 1) = "E"
       noErr == \A id \in fcols : id \in DOMAIN o.vals0 /\ \A r \in 1..Len(o.vals0[id]) : ~isErr(o.vals0[id][r])
       spec == IF ~setupOk THEN {"SPEC.setup"}
               ELSE IF ~renderOk THEN {"SPEC.render"}
               ELSE IF ~noErr THEN {"SPEC.error0"} ELSE {}
       judged == o.fail = "" /\ o.exc = ""
-  IN IF ~InputOk(in) THEN [c |-> {"SPEC.wf"}, ft |-> {}, fv |-> {}]
+  IN IF ~(dc[c.inp.doc].ok /\ StepOk(in)) THEN [c |-> {"SPEC.wf"}, ft |-> {}, fv |-> {}]
      ELSE IF o.fail # "" THEN [c |-> Clauses(in, o), ft |-> {}, fv |-> {}]
      ELSE [c  |-> spec \cup Clauses(in, o),
            ft |-> IF judged THEN BadTexts(in, o.texts1, o.names1, o.texts0) ELSE {},
            fv |-> IF judged THEN BadVals(o.vals0, o.vals1) ELSE {}]
 
-Init == i = 0 /\ bad = <<>> /\ (NCases > 0 \/ JsonSerialize(IOEnv.OUT_FILE, <<>>))
+Init == /\ i = 0 /\ bad = <<>>
+        /\ dc = [k \in 1..Len(Data.docs) |-> DocFacts(Data.docs[k])]
+        /\ (NCases > 0 \/ JsonSerialize(IOEnv.OUT_FILE, <<>>))
 Next ==
   /\ i < NCases
   /\ i' = i + 1
-  /\ bad' = LET j == Judge(Cases[i + 1])
+  /\ bad' = LET j == Judge(Data.cases[i + 1])
             IN IF j.c = {} THEN bad ELSE Append(bad, [i |-> i + 1, c |-> j.c, ft |-> j.ft, fv |-> j.fv])
   /\ (i' < NCases \/ JsonSerialize(IOEnv.OUT_FILE, bad'))
-Spec == Init /\ [][Next]_<<i, bad>>
+  /\ UNCHANGED dc
+Spec == Init /\ [][Next]_<<i, bad, dc>>
 View == i
 =============================================================================
